@@ -1,5 +1,5 @@
 #!/venv/bin/python
-"""Replays the ten baseline defects D1..D10 (DESIGN.md section 3) against the
+"""Replays the baseline defects D1..D12 (DESIGN.md section 3) against the
 real code in /repo (or G3D_SRC).  For each defect prints `Dk HOLDS` when the
 property holds on that witness and `Dk FAILS <what>` otherwise.  Used to show
 the failing input against the real code before a `fix:` commit and its absence
@@ -103,7 +103,19 @@ def d11():
     assert not (r and intersection(far, sq) is None), "Line in ConvexPolygon is %r although intersection(line, polygon) is None" % (r,)
 
 
-ALL = dict(D11=d11, D1=d1, D2=d2, D3=d3, D4=d4, D5=d5, D6=d6, D7=d7, D8=d8, D9=d9, D10=d10)
+def d12():
+    a = ConvexPolygon((Point(-2, 0, 0), Point(-2, 0, 1), Point(-2, 1, 1), Point(-2, 1, 0)))
+    b = ConvexPolygon((Point(-1, 0, 0), Point(-1, 0, 1), Point(-1, 1, 1), Point(-1, 1, 0)))
+    assert not (a == b), "the unit squares in the planes x = -2 and x = -1 compare equal (hash(-1) == hash(-2))"
+    assert len({a, b}) == 2
+    outer = Parallelepiped(Point(-2, -2, -2), Vector(4, 0, 0), Vector(0, 4, 0), Vector(0, 0, 4))
+    inner = Parallelepiped(Point(-2, 0, 0), Vector(1, 0, 0), Vector(0, 1, 0), Vector(0, 0, 1))
+    r = intersection(outer, inner)      # used to raise the Euler-check ValueError: one face was lost in a set
+    assert r == inner and abs(r.volume() - 1) < 1e-9
+    assert not (inner == Parallelepiped(Point(-1, 0, 0), Vector(1, 0, 0), Vector(0, 1, 0), Vector(0, 0, 1)))
+
+
+ALL = dict(D12=d12, D11=d11, D1=d1, D2=d2, D3=d3, D4=d4, D5=d5, D6=d6, D7=d7, D8=d8, D9=d9, D10=d10)
 if __name__ == "__main__":
     which = sys.argv[1:] or list(ALL)
     bad = 0
